@@ -1173,7 +1173,11 @@ def install(ip):
     mod("hashlib", sha1=mk_hash("sha1", 20), sha256=mk_hash("sha256", 32), sha3_256=mk_hash("sha3_256", 32),
         sha512=mk_hash("sha512", 64), md5=mk_hash("md5", 16), sha224=mk_hash("sha224", 28))
 
-    mod("random", random=Opaque("random.random"), choice=Opaque("random.choice"), randint=Opaque("random.randint"),
+    def _random(ip, a, k):
+        r = ip.fresh("random", "real")
+        ip.path.assume(z3.And(r.t >= 0, r.t < 1))
+        return r
+    mod("random", random=Builtin("random.random", _random), choice=Opaque("random.choice"), randint=Opaque("random.randint"),
         sample=Opaque("random.sample"), shuffle=Opaque("random.shuffle"), getrandbits=Opaque("random.getrandbits"),
         SystemRandom=Opaque("random.SystemRandom"))
 
